@@ -34,10 +34,17 @@ class EMI(EAB, EX):
     pass
 
 
+# impostors: same class NAME as a member of the hierarchy, other ancestry
+# (handlers are selected by name; a per-name memo must not confuse them)
+EAB_X = type('EAB', (EX,), {})
+EX_A = type('EX', (EA,), {})
+
 EXC = {c.__name__: c for c in (EA, EAB, EABC, EX, EMI, KeyError, LookupError,
                                ValueError, IndexError, AttributeError,
                                TypeError, RuntimeError, ZeroDivisionError,
                                KeyboardInterrupt, Exception)}
+EXC['EAB~'] = EAB_X
+EXC['EX~'] = EX_A
 
 
 class Event:
